@@ -502,13 +502,13 @@ func doRun(j *sup.Job, res *sup.Result) {
 				break
 			}
 			// second opinion, independent of the hooks: when the hook table has shown no event for
-			// 300 ms, look at the goroutines themselves; if every goroutine of the interpreter is
+			// a second, look at the goroutines themselves; if every goroutine of the interpreter is
 			// parked in a channel operation (twice, 30 ms apart, with no event in between) the
 			// run is over even though the table still lists somebody as running (a blocking
 			// operation the hooks do not know about)
 			if evNow != lastEv {
 				lastEv, lastEvAt = evNow, time.Now()
-			} else if time.Since(lastEvAt) > 300*time.Millisecond && time.Since(lastDump) > 250*time.Millisecond {
+			} else if time.Since(lastEvAt) > time.Second && time.Since(lastDump) > 250*time.Millisecond {
 				lastDump = time.Now()
 				if ok, polling := allParked(); ok && (!polling || time.Since(lastEvAt) > 3*time.Second) {
 					time.Sleep(30 * time.Millisecond)
@@ -728,8 +728,8 @@ func allParked() (parked, polling bool) {
 	}
 	seen := false
 	for _, g := range strings.Split(string(buf), "\n\n") {
-		if !strings.Contains(g, "grits/process.") || strings.Contains(g, "HeartbeatReceiver") || strings.Contains(g, "monitorLoop") || strings.Contains(g, "main.allParked") {
-			continue
+		if !strings.Contains(g, "grits/process.") || strings.Contains(g, "main.allParked") {
+			continue // (the heartbeat receiver and an idle monitor are parked in a select themselves)
 		}
 		seen = true
 		head := g
